@@ -82,18 +82,36 @@ class _NoFilenoStdin(io.StringIO):
         raise io.UnsupportedOperation("fileno")
 
 
+class _ErrorRecorder(logging.Filter):
+    def __init__(self):
+        super().__init__()
+        self.messages = []
+
+    def filter(self, record):
+        if record.levelno >= logging.ERROR:
+            try:
+                self.messages.append(record.getMessage())
+            except Exception:
+                self.messages.append(str(record.msg))
+        return True
+
+
 class RunResult:
     __slots__ = (
         "outcome", "exit", "files", "stdout", "stderr", "log_digest", "choices", "steps",
         "probes", "blocked", "n_tasks", "log", "fs_events", "main_exc", "enabled_sizes",
-        "alive_at_end",
+        "alive_at_end", "markers", "error_logs",
     )
 
     def ok(self):
         return self.outcome == "finished" and self.exit == 0
 
     def error_reported(self):
-        return ("ERROR" in self.stderr) or ("Traceback (most recent call last)" in self.stderr)
+        """An error message reached the user: an ERROR-level log record whose text is on
+        stderr, or a traceback."""
+        if "Traceback (most recent call last)" in self.stderr:
+            return True
+        return any(m.strip() and m.strip().splitlines()[0] in self.stderr for m in self.error_logs)
 
 
 def run_sim(argv, files, chooser, capacity=65536, feeder=True, step_cap=K.STEP_CAP_DEFAULT,
@@ -110,6 +128,8 @@ def run_sim(argv, files, chooser, capacity=65536, feeder=True, step_cap=K.STEP_C
     root = logging.getLogger()
     saved_handlers, saved_level = root.handlers[:], root.level
     root.handlers = []
+    recorder = _ErrorRecorder()
+    root.addFilter(recorder)
     fs = simfs.SimFS(files)
     simfs.set_fs(fs)
     out_buf = simfs.CapturedStdoutBuffer()
@@ -144,6 +164,7 @@ def run_sim(argv, files, chooser, capacity=65536, feeder=True, step_cap=K.STEP_C
                     pass
             root.handlers = saved_handlers
             root.setLevel(saved_level)
+            root.removeFilter(recorder)
             simfs.set_fs(None)
             simfs._STDOUT_BUF = None
     except K.HarnessError:
@@ -161,6 +182,8 @@ def run_sim(argv, files, chooser, capacity=65536, feeder=True, step_cap=K.STEP_C
     res.n_tasks = len(kern.tasks)
     res.fs_events = fs.events
     res.main_exc = main.exc_text
+    res.markers = kern.markers
+    res.error_logs = recorder.messages
     res.alive_at_end = getattr(kern, "alive_at_main_exit", [])
     h = hashlib.sha1()
     for ev in kern.log:
